@@ -1705,6 +1705,7 @@ def transpose(surf, **kwargs):
     else:
         geom = surf
 
+    trims_done = set()  # a trim curve which belongs to several surfaces is transposed once
     for g in ops.unique_geometries(geom):
         # Get existing data
         degree_u_new = g.degree_v
@@ -1733,7 +1734,9 @@ def transpose(surf, **kwargs):
 
         # The trim curves are defined on the parametric space of the surface
         for trim in g.trims:
-            ops.swap_trim_coordinates(trim)
+            if id(trim) not in trims_done:
+                trims_done.add(id(trim))
+                ops.swap_trim_coordinates(trim)
 
     return geom
 
